@@ -203,7 +203,8 @@ func xwingExpand(sk []byte) (seedM, skX []byte, err error) {
 	return expanded[:64], expanded[64:96], nil
 }
 
-func xwingCombiner(ssM, ssX, ctX, pkX []byte) []byte {
+// XWingCombiner = SHA3-256(ss_M || ss_X || ct_X || pk_X || XWingLabel).
+func XWingCombiner(ssM, ssX, ctX, pkX []byte) []byte {
 	h := sha3.New256()
 	h.Write(concat(ssM, ssX, ctX, pkX, XWingLabel))
 	return h.Sum(nil)
@@ -251,7 +252,8 @@ func PublicFromPrivate(kem uint16, sk []byte) ([]byte, error) {
 	return nil, fmt.Errorf("hpkeref: unknown KEM %#x", kem)
 }
 
-func mlkemEncap(kem uint16, pk, m []byte) (ss, ct []byte, err error) {
+// MLKEMEncap is ML-KEM.Encaps(pk), with the 32-byte randomness m when it is not nil.
+func MLKEMEncap(kem uint16, pk, m []byte) (ss, ct []byte, err error) {
 	switch kem {
 	case KEMMLKEM768:
 		ek, err := mlkem.NewEncapsulationKey768(pk)
@@ -306,7 +308,7 @@ func Encap(kem uint16, pkR []byte, eph *Ephemeral) (ss, enc []byte, err error) {
 		ss, err = DHKEMSharedSecret(kem, dh, enc, pkR)
 		return ss, enc, err
 	case KEMMLKEM768, KEMMLKEM1K:
-		return mlkemEncap(kem, pkR, eph.PQ)
+		return MLKEMEncap(kem, pkR, eph.PQ)
 	case KEMXWing:
 		if len(pkR) != 1216 {
 			return nil, nil, errors.New("hpkeref: X-Wing public key must be 1216 bytes")
@@ -332,11 +334,11 @@ func Encap(kem uint16, pkR []byte, eph *Ephemeral) (ss, enc []byte, err error) {
 		if err != nil {
 			return nil, nil, err
 		}
-		ssM, ctM, err := mlkemEncap(KEMMLKEM768, pkM, eph.PQ)
+		ssM, ctM, err := MLKEMEncap(KEMMLKEM768, pkM, eph.PQ)
 		if err != nil {
 			return nil, nil, err
 		}
-		return xwingCombiner(ssM, ssX, ctX, pkX), concat(ctM, ctX), nil
+		return XWingCombiner(ssM, ssX, ctX, pkX), concat(ctM, ctX), nil
 	}
 	return nil, nil, fmt.Errorf("hpkeref: unknown KEM %#x", kem)
 }
@@ -404,7 +406,7 @@ func Decap(kem uint16, enc, skR []byte) ([]byte, error) {
 		if err != nil {
 			return nil, err
 		}
-		return xwingCombiner(ssM, ssX, ctX, kx.PublicKey().Bytes()), nil
+		return XWingCombiner(ssM, ssX, ctX, kx.PublicKey().Bytes()), nil
 	}
 	return nil, fmt.Errorf("hpkeref: unknown KEM %#x", kem)
 }
